@@ -48,16 +48,22 @@ func ImpliedType(buf []byte) (cty.Type, error) {
 	return ty, nil
 }
 
+// maxImpliedTypeDepth is how deeply arrays and objects may be nested in a
+// document given to ImpliedType. It is the limit encoding/json itself applies
+// when decoding into Go values; the token-level API used here has none, and
+// without one a long run of opening brackets exhausts the goroutine stack.
+const maxImpliedTypeDepth = 10000
+
 func impliedType(dec *json.Decoder) (cty.Type, error) {
 	tok, err := dec.Token()
 	if err != nil {
 		return cty.NilType, err
 	}
 
-	return impliedTypeForTok(tok, dec)
+	return impliedTypeForTok(tok, dec, 0)
 }
 
-func impliedTypeForTok(tok json.Token, dec *json.Decoder) (cty.Type, error) {
+func impliedTypeForTok(tok json.Token, dec *json.Decoder, depth int) (cty.Type, error) {
 	if tok == nil {
 		return cty.DynamicPseudoType, nil
 	}
@@ -74,11 +80,14 @@ func impliedTypeForTok(tok json.Token, dec *json.Decoder) (cty.Type, error) {
 
 	case json.Delim:
 
+		if depth >= maxImpliedTypeDepth {
+			return cty.NilType, fmt.Errorf("exceeded max nesting depth")
+		}
 		switch rune(ttok) {
 		case '{':
-			return impliedObjectType(dec)
+			return impliedObjectType(dec, depth+1)
 		case '[':
-			return impliedTupleType(dec)
+			return impliedTupleType(dec, depth+1)
 		default:
 			return cty.NilType, fmt.Errorf("unexpected token %q", ttok)
 		}
@@ -88,7 +97,7 @@ func impliedTypeForTok(tok json.Token, dec *json.Decoder) (cty.Type, error) {
 	}
 }
 
-func impliedObjectType(dec *json.Decoder) (cty.Type, error) {
+func impliedObjectType(dec *json.Decoder, depth int) (cty.Type, error) {
 	// By the time we get in here, we've already consumed the { delimiter
 	// and so our next token should be the first object key.
 
@@ -119,7 +128,7 @@ func impliedObjectType(dec *json.Decoder) (cty.Type, error) {
 			return cty.NilType, err
 		}
 
-		aty, err := impliedTypeForTok(tok, dec)
+		aty, err := impliedTypeForTok(tok, dec, depth)
 		if err != nil {
 			return cty.NilType, err
 		}
@@ -160,7 +169,7 @@ func impliedObjectType(dec *json.Decoder) (cty.Type, error) {
 	return cty.Object(atys), nil
 }
 
-func impliedTupleType(dec *json.Decoder) (cty.Type, error) {
+func impliedTupleType(dec *json.Decoder, depth int) (cty.Type, error) {
 	// By the time we get in here, we've already consumed the [ delimiter
 	// and so our next token should be the first value.
 
@@ -178,7 +187,7 @@ func impliedTupleType(dec *json.Decoder) (cty.Type, error) {
 			}
 		}
 
-		ety, err := impliedTypeForTok(tok, dec)
+		ety, err := impliedTypeForTok(tok, dec, depth)
 		if err != nil {
 			return cty.NilType, err
 		}
